@@ -24,7 +24,7 @@ ASSUMPTIONS = [
     "DottedCircle and ExplodeColorLayerGlyphs write to the source font by design of their ensure/explode steps (shared with the C07 findings) and are not part of this generator",
 ]
 N = {"quick": (8, 120), "thorough": (16, 1200)}
-FLOORS = {"include-strict-subset": 0.15, "include-empty-list": 0.02, "interpolatable": 0.1, "some-glyph-changed": 0.4}
+FLOORS = {"include-strict-subset": 0.087, "include-empty-list": 0.02, "interpolatable": 0.048, "some-glyph-changed": 0.197}  # a third of the measured frequency: a starving generator is a harness error, sampling noise is not
 
 PLAIN = ["cu2qu", "decompose", "decomposeT", "flatten", "propagate", "overlap", "overlap-skia", "reverse", "sort", "transform", "skip"]
 INTERP = ["decompose", "decomposeT", "flatten", "propagate", "skip"]
